@@ -453,7 +453,7 @@ impl GraphEngine {
 
                 let encoded_val = value.encode();
                 let blob_id = crate::blob_store::BlobStore::write(&mut pager, &encoded_val)?;
-                tree.insert(&mut pager, &btree_key, blob_id)?;
+                replace_property_entry(&mut tree, &mut pager, &btree_key, blob_id)?;
             }
 
             // Sink Edge Properties (Tag 1)
@@ -468,7 +468,7 @@ impl GraphEngine {
 
                 let encoded_val = value.encode();
                 let blob_id = crate::blob_store::BlobStore::write(&mut pager, &encoded_val)?;
-                tree.insert(&mut pager, &btree_key, blob_id)?;
+                replace_property_entry(&mut tree, &mut pager, &btree_key, blob_id)?;
             }
 
             current_root = tree.root().as_u64();
@@ -681,6 +681,33 @@ impl GraphEngine {
             .map(|(n, d)| (n.clone(), d.id, d.root.as_u64()))
             .collect()
     }
+}
+
+/// Property sinking keeps ONE entry per key in the property store: the entry that the sunk value
+/// replaces is removed first.  (The B-tree keeps no order among equal keys once they spread over more
+/// than one leaf, so after a few hundred overwrite + compact rounds of one property the reads returned
+/// an old value.)
+fn replace_property_entry(
+    tree: &mut BTree,
+    pager: &mut Pager,
+    key: &[u8],
+    blob_id: u64,
+) -> Result<()> {
+    loop {
+        let old = {
+            let mut cursor = tree.cursor_lower_bound(pager, key)?;
+            if cursor.is_valid()? && cursor.key()? == key {
+                Some(cursor.payload()?)
+            } else {
+                None
+            }
+        };
+        match old {
+            Some(payload) if tree.delete(pager, key, payload)? => continue,
+            _ => break,
+        }
+    }
+    tree.insert(pager, key, blob_id)
 }
 
 fn build_segment_from_runs(seg_id: SegmentId, runs: &Arc<Vec<Arc<L0Run>>>) -> CsrSegment {
